@@ -180,12 +180,12 @@ pub fn cmd_lockstep(a: &Args) -> i32 {
         }
         e += nshards;
     }
+    write_hashes(a.get("hash-out"), nontrivial.iter());
     emit(J::obj()
         .set("t", J::s("summary"))
         .set("engine", J::s("lockstep"))
         .set("cases", J::u64(cases))
         .set("distinct_nontrivial", J::u(nontrivial.len()))
-        .set("nontrivial_hashes", J::A(nontrivial.iter().map(|h| J::S(format!("{:x}", h))).collect()))
         .set("compared_records", J::u64(compared_records))
         .set("per_kind", J::from_map(&per_pair))
         .set("violations", J::u64(violations))
@@ -392,12 +392,12 @@ pub fn cmd_multi(a: &Args) -> i32 {
         }
         e += nshards;
     }
+    write_hashes(a.get("hash-out"), nontrivial.iter());
     emit(J::obj()
         .set("t", J::s("summary"))
         .set("engine", J::s("multi"))
         .set("cases", J::u64(cases))
         .set("distinct_nontrivial", J::u(nontrivial.len()))
-        .set("nontrivial_hashes", J::A(nontrivial.iter().map(|h| J::S(format!("{:x}", h))).collect()))
         .set("iterators", J::u(total_its))
         .set("clones", J::u(total_clones))
         .set("per_kind", J::from_map(&per_kind))
@@ -1110,13 +1110,13 @@ pub fn cmd_leak(a: &Args) -> i32 {
         }
         e += nshards;
     }
+    write_hashes(a.get("hash-out"), nontrivial.iter());
     emit(J::obj()
         .set("t", J::s("summary"))
         .set("engine", J::s("leak"))
         .set("cases", J::u64(cases))
         .set("windows_measured", J::u64(windows))
         .set("distinct_nontrivial", J::u(nontrivial.len()))
-        .set("nontrivial_hashes", J::A(nontrivial.iter().map(|h| J::S(format!("{:x}", h))).collect()))
         .set("irregular_windows", J::u64(inconclusive))
         .set("per_kind", J::from_map(&per_kind))
         .set("violations", J::u64(violations))
